@@ -49,6 +49,8 @@ class B:
         if k == "gaussian":
             if variant == 1:     # sandwich covariance: bun^H bun with bun = diag(sqrt(icov))
                 icov = ift.SandwichOperator.make(ift.makeOp(self.fld([2., .5])), sampling_dtype=np.float64)
+            elif variant == 2:   # sandwich with a scaling in the middle: bun^H (4) bun with bun = diag(1, 1/4)
+                icov = ift.SandwichOperator.make(ift.makeOp(self.fld([1., .25])), ift.ScalingOperator(self.dom, 4.), sampling_dtype=np.float64)
             else:
                 icov = ift.makeOp(self.fld([4., .25]), sampling_dtype=np.float64)
             return ift.GaussianEnergy(data=self.fld([1., -2.]), inverse_covariance=icov)
@@ -59,7 +61,7 @@ class B:
         if k == "studentt":
             return ift.StudentTEnergy(self.dom, 0.6)
         if k == "invgamma":
-            return ift.InverseGammaEnergy(self.fld([2., .5]), alpha=0.5)
+            return ift.InverseGammaEnergy(self.fld([2., .5]), alpha=(self.fld([.5, .5]) if variant == 1 else 0.5))     # alpha as a number / as a field
         if k == "categorical":
             return ift.CategoricalEnergy(self.fld([1, 0], np.int64), axis=0)
         raise tlcmod.MachineryError(k)
@@ -303,7 +305,7 @@ def run(ctx):
     groups = {}
     with quiet():
         for inst in insts:
-            variants = (0, 1) if inst["kind"] == "gaussian" else (0,)
+            variants = (0, 1, 2) if inst["kind"] == "gaussian" else ((0, 1) if inst["kind"] == "invgamma" else (0,))
             for v in variants:
                 ctx.case((inst["comp"], inst["kind"], inst["kind2"], json.dumps(inst["x"]), json.dumps(inst["A"]), json.dumps(inst["c"]), v))
                 viols, val = check_instance(b, inst, v)
